@@ -186,6 +186,7 @@ type Result struct {
 	Histogram          map[string]int `json:"histogram"`
 	Exhaustive         bool           `json:"exhaustive"`
 	Failures           []Failure      `json:"failures"`
+	EnvFault           string         `json:"env_fault,omitempty"` // the machine refused storage (ENOSPC) to a gateway during the run
 	Notes              []string       `json:"notes,omitempty"`
 
 	distinct map[[8]byte]struct{}
